@@ -14,4 +14,4 @@ Extraction "../extract/model.ml"
   get_membership_proof get_non_membership_proof verify_membership verify_nonmembership_gen verify_nonmembership
   init_state begin_transaction commit_transaction rollback_transaction set_record batch_set get_record batch_get
   get_user_state get_user_data get_user_state_versions tombstone flush evict
-  dir_new publish lookup key_history audit lookup_verify key_history_verify audit_verify_gen spec_root_hash.
+  dir_new publish lookup key_history audit lookup_verify key_history_verify audit_verify_gen spec_root_hash rebuild_root verify_consecutive.
